@@ -5,7 +5,7 @@
 From Coq Require Import ZArith Bool String List Reals.
 From Flocq Require Import Core BinarySingleNaN.
 Require Import NixV.Base.Prelude NixV.Base.F64 NixV.Base.F64Facts NixV.Gen.GenDimensions.
-Require NixV.Access.Retrieval NixV.Access.VecUnits NixV.Gen.GenPairs NixV.Axis.PairBridge NixV.Gen.GenRange NixV.Axis.RangeBridge.
+Require NixV.Access.Retrieval NixV.Access.VecUnits NixV.Gen.GenPairs NixV.Axis.PairBridge NixV.Gen.GenRange NixV.Axis.RangeBridge NixV.Axis.Wrappers.
 Require Import NixV.Axis.AxisSpec NixV.Axis.AxisSpecProofs NixV.Axis.SampledHand NixV.Axis.SearchProofs
                NixV.Axis.SampledProofs NixV.Axis.IntAxisProofs NixV.Axis.RangeModel NixV.Axis.RangeProofs
                NixV.Axis.RoundTrip NixV.Axis.Totality.
@@ -180,3 +180,22 @@ Theorem C07_range_conversion_is_generated : forall position ticks matching,
   GenRange.getIndex_gen position ticks matching = getIndex position ticks matching.
 Proof. exact RangeBridge.getIndex_generated. Qed.
 Print Assumptions C07_range_conversion_is_generated.
+
+(** * the remaining public routes (deprecated overloads that throw where the others answer none, vector overloads) are the
+    conversions above followed by "none -> OutOfBounds" (definitions in Axis/Wrappers.v, replayed against the library);
+    the deprecated RangeDimension::indexOf(start, end) applies the pair rule (as repaired by 85e9d14) *)
+Theorem C07_deprecated_range_pair : forall s e ticks si ei,
+  getIndex s ticks PositionMatch_GreaterOrEqual = Ok si -> getIndex e ticks PositionMatch_LessOrEqual = Ok ei ->
+  Wrappers.range_pair2 true s e ticks = Wrappers.or_oob (Ok (pair_of (fgt s e) si ei)).
+Proof. exact Wrappers.range_pair2_repaired. Qed.
+Print Assumptions C07_deprecated_range_pair.
+
+Theorem C07_deprecated_range_pair_unchecked_refuted :
+  let ticks := [ofZ 1; ofZ 2; ofZ 3] in
+  Wrappers.range_pair2 false (ofME 5 (-1)) (ofME 3 (-1)) ticks = Ok (2, 0) /\
+  GenPairs.range_pair (ofME 5 (-1)) (ofME 3 (-1)) ticks RangeMatch_Inclusive ticks = Ok None.
+Proof. exact Wrappers.range_pair2_unchecked_refuted. Qed.
+Print Assumptions C07_deprecated_range_pair_unchecked_refuted.
+
+Theorem C07_current_routes_repaired : Wrappers.range_pair2_checks_order_now = true.
+Proof. reflexivity. Qed.
